@@ -47,6 +47,10 @@ var gbyCache = gbyTable{
 }
 
 func runC17(p *Prog, r *Report) {
+	if want("C17.11") {
+		// (shared with C07) handles are released on every path
+		ruleAcquiredHandlesSettled(p, r, "C17.11")
+	}
 	if want("C17.1") {
 		ruleLockPairing(p, r, "C17.1", []string{"leveldb/cache"}, 15)
 		ruleGuardedBy(p, r, "C17.1b", "guarded-by: mBucket.{nodes,state} under the bucket lock; lru.{used,capacity,recent}, Node.CacheData, lruNode.ban under lru.mu; Cache.closed under Cache.mu", []string{"leveldb/cache"}, gbyCache, 40)
